@@ -69,6 +69,21 @@ def generate(rng, n, tier):
         yield {"kind": "observe", "script": script, "var": v, "obs": obs}
 
 
+def canon_result(r, params):
+    """comparable form of an observation's answer (None: not comparable across objects, e.g. default reprs)"""
+    if isinstance(r, (str, bool, int)) or r is None:
+        out = r
+    elif isinstance(r, (set, frozenset)):
+        out = sorted(safe(lambda x=x: str(x)) for x in r)
+    elif isinstance(r, (list, tuple)):
+        out = [type(x).__name__ for x in r]
+    else:
+        return None
+    if isinstance(out, str) and " object at 0x" in out:
+        return None
+    return (out, [repr(x) for x in params]) if params is not None else (out,)
+
+
 def safe(f):
     try:
         return f()
@@ -97,17 +112,36 @@ def examine(case):
     except SyntaxError:
         return res
     o = env[case["var"]]
-    before = safe(lambda: str(o))
+    # half of the histories start with the observations themselves (the first rendering ever of the object is then one
+    # with options / a collector), the other half with a plain str()
+    lead = struct_hash([src, case["obs"]])[0] in "01234567"
+    before = safe(lambda: str(o)) if lead else None
     P = ns.QmarkParameter()
     kinds = set()
     for i in case["obs"]:
         code = OBS[i]
         kinds.add(code.split("(")[0])
+        # the result of an observation depends on the object's state and the options only: an identically constructed
+        # object that was never observed before answers the same
+        P2 = ns.QmarkParameter()
         try:
-            eval(code, dict(ns.NS, o=o, P=P))
+            twin = ns.ex(src)[case["var"]]
         except Exception:
-            pass
+            twin = None
+        n0 = len(P.get_parameters())
+        r1 = canon_result(safe(lambda: eval(code, dict(ns.NS, o=o, P=P))), P.get_parameters()[n0:] if "P)" in code else None)
+        if twin is not None:
+            r2 = canon_result(safe(lambda: eval(code, dict(ns.NS, o=twin, P=P2))), P2.get_parameters() if "P)" in code else None)
+            # hash() of a class without __hash__ is the object's identity; dict / list membership likewise
+            comparable = not code.startswith(("hash(", "repr(", "{o", "o in "))
+            if comparable and r1 is not None and r2 is not None and r1 != r2 and not ("P)" in code and n0 > 0):
+                res.findings.append({"sig": {"kind": "observation-depends-on-history", "cls": type(o).__name__},
+                                     "what": "%s gives %r on the observed object and %r on an identically constructed fresh one | %s"
+                                             % (code, r1, r2, src)})
+                break
     after = safe(lambda: str(o))
+    if before is None:
+        before = after
     fresh = safe(lambda: str(ns.ex(src)[case["var"]]))
     res.nontrivial = len(case["obs"]) >= 3 and len(kinds) >= 2
     res.key = struct_hash([src, case["obs"]])
